@@ -143,6 +143,19 @@ class Processor(ABC):
         """  # noqa: D401
         raise NotImplementedError()
 
+    @staticmethod
+    def _skip_engine_markers(relation: Relation) -> Relation:
+        """Return the first relation upstream of any engine-specific markers
+        (i.e. not `Transfer` or `Materialization`) that have no payload.
+        """
+        while (
+            relation.payload is None
+            and isinstance(relation, MarkerRelation)
+            and not isinstance(relation, Transfer | Materialization)
+        ):
+            relation = relation.target
+        return relation
+
     def _process_recursive(self, original: Relation, materialize_as: str | None) -> tuple[Relation, bool]:
         """Recursive implementation for `process`.
 
@@ -204,16 +217,20 @@ class Processor(ABC):
                 new_target, persisted = self._process_recursive(target, materialize_as=name)
                 if new_target is not target:
                     result = new_target.materialized(name=name)
-                    if result.payload is not None:
+                    # Engines may wrap the relations they return in their own
+                    # markers; look through those for the relation that
+                    # actually holds (or should hold) the payload.
+                    holder = self._skip_engine_markers(result)
+                    if holder.payload is not None:
                         # This operation has been simplified away
                         # (perhaps it's now a materialization of a
                         # leaf).
-                        original.attach_payload(result.payload)
+                        original.attach_payload(holder.payload)
                         return result, True
                 else:
-                    result = original
+                    result = holder = original
                 if persisted:
-                    payload = new_target.payload
+                    payload = self._skip_engine_markers(new_target).payload
                 elif original.is_join_identity:
                     payload = target.engine.get_join_identity_payload()
                 elif original.max_rows == 0:
@@ -224,8 +241,8 @@ class Processor(ABC):
                 # the processed one, so it's used every time that the
                 # original relation tree is processed.
                 original.attach_payload(payload)
-                if result is not original:
-                    result.attach_payload(payload)
+                if holder is not original:
+                    holder.attach_payload(payload)
                 return result, True
             case MarkerRelation(target=target):
                 new_target, persisted = self._process_recursive(target, materialize_as=materialize_as)
